@@ -314,10 +314,23 @@ func (w *world) doStep() bool {
 		if u.cl.WideInts {
 			w.kinds["agree-wide-options"]++
 		}
+		if r.Chance(1, 8) {
+			// other legal shapes of the same request: no icon field at all, an empty one, or the icon in a single byte.
+			// Whatever the shape, everybody's user list must stay a list of whole records (icon 0, or the byte's value)
+			u.cl.IconShape = core.Pick(r, []string{"absent", "empty", "one-byte"})
+			switch u.cl.IconShape {
+			case "one-byte":
+				icon &= 0xff
+			default:
+				icon = 0
+			}
+			w.kinds["agree-icon-"+u.cl.IconShape]++
+		}
 		if _, ok := u.cl.Agreed(reqName, icon, optsOf(refPM, refChat, auto), autoText); !ok {
 			w.c.Fail("C13/agreed/no-reply", "step %d: no reply to agreed", w.step)
 			return false
 		}
+		u.cl.IconShape = ""
 		u.completed, u.icon, u.refusePM, u.refuseChat, u.auto = true, icon, refPM, refChat, autoText
 		u.name = u.accName
 		if rc.BitSet(u.bits, 26) {
